@@ -11,5 +11,5 @@ CONSTANTS
   HttpReqs <- AllHttp
 VIEW View
 INVARIANTS TypeOK PropertyLevel RefetchIffExpired CodeStricter NeverOnExpiry
-PROPERTIES ClosedIsFinal PolicyFixed
+PROPERTIES PolicyFixed
 CHECK_DEADLOCK FALSE
